@@ -83,6 +83,9 @@ fn acct_plans(prop: &'static str, thorough: bool) -> Vec<Plan> {
                 ("submitted", small_funds(|| seed_submitted(&k), 250)),
                 ("full_exit", small_funds(|| seed_full_exit(&k), 250)),
                 ("sweep", small_funds(|| seed_sweep(&k), 250)),
+                ("ten_batches", small_funds(|| seed_ten_batches(&k), 250)),
+                ("mid_amounts", small_funds(|| seed_mid_amounts(&k), 250)),
+                ("many_rewards", small_funds(|| seed_many_rewards(&k), 250)),
                 // two refundable staked-asset transfers while the contract also holds a received batch
                 ("received_refundable2", small_funds(
                     || {
@@ -173,6 +176,9 @@ fn solv_plans(thorough: bool) -> Vec<Plan> {
                 ("queued", small_funds(|| seed_queued(&k), 150)),
                 ("submitted", small_funds(|| seed_submitted(&k), 150)),
                 ("received", small_funds(|| seed_received(&k), 150)),
+                ("ten_batches", small_funds(|| seed_ten_batches(&k), 150)),
+                ("mid_received", small_funds(|| seed_mid_received(&k), 150)),
+                ("many_rewards", small_funds(|| seed_many_rewards(&k), 150)),
             ],
         );
         let mut o = MenuOpt::base();
@@ -255,6 +261,7 @@ fn lst_plans(thorough: bool) -> Vec<Plan> {
                 ("rate1_queued", q(seed_two_stakes, &k)),
                 ("rate_up_queued", q(seed_rate_up, &k)),
                 ("rate_down_queued", q(seed_rate_down, &k)),
+                ("mid_amounts", small_funds(|| seed_mid_amounts(&k), 250)),
             ],
         );
         let mut o = MenuOpt::base();
@@ -351,8 +358,12 @@ fn wd_plans(thorough: bool) -> Vec<Plan> {
         s
     };
     let mut seeds = vec![("three_rate1", small_funds(|| three(&k, false), 0)), ("three_rate_up", small_funds(|| three(&k, true), 0))];
+    seeds.push(("four_requesters", small_funds(|| seed_four_requesters(&k), 0)));
+    seeds.push(("ten_batches", small_funds(|| seed_ten_batches(&k), 0)));
+    seeds.push(("mid_received", small_funds(|| seed_mid_received(&k), 0)));
     if thorough {
         seeds.push(("two_batches", small_funds(|| two_batches(&k), 0)));
+        seeds.push(("mid_amounts", small_funds(|| seed_mid_amounts(&k), 0)));
     }
     let seeds = named(&k, seeds);
     let mut o = MenuOpt::base();
@@ -364,7 +375,7 @@ fn wd_plans(thorough: bool) -> Vec<Plan> {
     o.deliver = vec![Rel::Exact, Rel::Minus1, Rel::Half, Rel::Plus5, Rel::One];
     o.deliver_dev = false;
     o.withdraw_all_pairs = true;
-    o.withdrawers = vec![u(1), u(2), u(3), p20("x")];
+    o.withdrawers = vec![u(1), u(2), u(3), p20("u4"), p20("x")];
     o.holds = false;
     o.max_dev = 0;
     o.fee_withdraw = vec![];
@@ -426,6 +437,8 @@ fn life_plans(thorough: bool) -> Vec<Plan> {
             ("fresh", small_funds(|| seed_fresh(&k), 0)),
             ("two_stakes", small_funds(|| seed_two_stakes(&k), 0)),
             ("rate_up", small_funds(|| seed_rate_up(&k), 0)),
+            ("ten_batches", small_funds(|| seed_ten_batches(&k), 0)),
+            ("far_future", small_funds(|| seed_far_future(&k), 0)),
         ],
     );
     let mut o = MenuOpt::base();
@@ -460,7 +473,7 @@ fn life_plans(thorough: bool) -> Vec<Plan> {
         }
         // batch period change
         let cfg = s.w.config();
-        if cfg.batch_period == kk.batch_period && s.m.batches.len() <= 2 {
+        if cfg.batch_period == kk.batch_period && s.m.batches.len() as u64 <= 2 + s.g.seed_batches {
             a.push(exec(
                 &adm(),
                 ExecuteMsg::UpdateConfig { native_chain_config: None, protocol_chain_config: None, protocol_fee_config: None, monitors: None, batch_period: Some(40) },
@@ -517,8 +530,15 @@ fn life_plans(thorough: bool) -> Vec<Plan> {
 
 // ---------------------------------------------------------------- C07: IBC tracking / recovery
 fn refundable_seed(k: &K, n: usize) -> Sim {
+    refundable_seed_from(k, n, 1)
+}
+
+/// like `refundable_seed`, with the channel's sequence counter starting at `first_seq`
+/// (sequences crossing 9 -> 10, 255 -> 256 …)
+fn refundable_seed_from(k: &K, n: usize, first_seq: u64) -> Sim {
     // n refundable staked-asset packets for the staker (exercises the page size of 10)
     let mut s = seed_resumed(k);
+    s.w.ibc.next_seq = first_seq;
     for i in 0..n {
         let ap = s.apply(&hold(stake(&u(1), 10 + i as u128)));
         assert!(ap.out.ok, "{:?}", ap.out.err);
@@ -538,9 +558,11 @@ fn ibc_plans(thorough: bool) -> Vec<Plan> {
             ("resumed", small_funds(|| seed_resumed(&k), 120)),
             ("rate_up", small_funds(|| seed_rate_up(&k), 120)),
             ("refundable11", small_funds(|| refundable_seed(&k, 11), 40)),
+            ("refundable12_from_seq8", small_funds(|| refundable_seed_from(&k, 12, 8), 40)),
         ];
         if thorough {
             seeds.push(("refundable2", small_funds(|| refundable_seed(&k, 2), 60)));
+            seeds.push(("refundable21_from_seq250", small_funds(|| refundable_seed_from(&k, 21, 250), 40)));
         }
         let seeds = named(&k, seeds);
         let kk = k.clone();
@@ -550,7 +572,7 @@ fn ibc_plans(thorough: bool) -> Vec<Plan> {
             let n1 = n20(&kk, "n1");
             let staker = n20(&kk, "staker");
             let outstanding = s.m.packets.len();
-            let sent_new = s.w.ibc.next_seq <= 16;
+            let sent_new = s.w.ibc.next_seq <= 16 + s.g.seed_seq;
             if outstanding < maxk && sent_new {
                 if s.w.bal(&u(1), &sd()) >= 20 {
                     a.push(hold(stake(&u(1), 20)));
@@ -690,10 +712,10 @@ fn ibc_plans(thorough: bool) -> Vec<Plan> {
 fn fee_plans(thorough: bool) -> Vec<Plan> {
     let mut out = Vec::new();
     for k in [K::k0(), K::k4()] {
-        let seeds = named(&k, vec![("two_stakes", small_funds(|| seed_two_stakes(&k), 0)), ("resumed", small_funds(|| seed_resumed(&k), 100)), ("sweep", small_funds(|| seed_sweep(&k), 100))]);
+        let seeds = named(&k, vec![("two_stakes", small_funds(|| seed_two_stakes(&k), 0)), ("resumed", small_funds(|| seed_resumed(&k), 100)), ("sweep", small_funds(|| seed_sweep(&k), 100)), ("many_rewards", small_funds(|| seed_many_rewards(&k), 100)), ("mid_amounts", small_funds(|| seed_mid_amounts(&k), 0))]);
         let menu: Menu = Box::new(move |s| {
             let mut a: Vec<Act> = Vec::new();
-            if s.w.ibc.next_seq <= 8 {
+            if s.w.ibc.next_seq <= 8 + s.g.seed_seq {
                 a.push(rewards(s, 50));
                 a.push(rewards(s, 7));
                 if s.w.bal(&u(1), &sd()) >= 100 {
